@@ -89,6 +89,8 @@ static void logf(const char* s) { sp(); if (t_log) *t_log += s; }
 // re-entrancy: when t_nested is set, the functor of stmt(word) starts a complete second parse on the SAME parser object in the middle of the first
 static thread_local const char* t_nested = nullptr; static thread_local bool t_in_nested = false;
 static void maybe_nested_parse();
+// a parse that is left by an exception: when t_throw is set the functor of stmt(word, '=', word) throws
+struct FunctorError {}; static thread_local bool t_throw = false;
 // parser 1: generated lexer, typed term, error rule
 static int word_value(std::string_view sv) { logf("w"); return int(sv.size()); }
 constexpr char word_pattern[] = "[a-z]+";
@@ -100,7 +102,7 @@ static auto* make_p1(void* mem) {
         stmts(stmts, stmt, ';') >= [](int a, int b, skip) { logf("S"); return a * 10 + b; },
         stmts(stmts, error, ';') >= [](int a, skip, skip) { logf("E"); return a * 10 + 9; },
         stmt(word) >= [](const auto& w) { logf("1"); maybe_nested_parse(); return w.get_value(); },
-        stmt(word, '=', word) >>= [](auto&& ctx, const auto& a, skip, const auto& b) { logf("2"); if constexpr (std::is_same_v<std::decay_t<decltype(ctx)>, Ctx>) ctx.counter++; return a.get_value() + b.get_value(); }));
+        stmt(word, '=', word) >>= [](auto&& ctx, const auto& a, skip, const auto& b) { logf("2"); if (t_throw) throw FunctorError{}; if constexpr (std::is_same_v<std::decay_t<decltype(ctx)>, Ctx>) ctx.counter++; return a.get_value() + b.get_value(); }));
 }
 using P1 = std::remove_pointer_t<decltype(make_p1(nullptr))>;
 
@@ -171,6 +173,10 @@ static std::vector<Call> alphabet() {
         std::string want_log; for (char c : plain_log) { want_log += c; if (c == '1') want_log += "[" + inner + "]"; }
         std::string want = show(r2) + "|" + want_log + "|" + es2.text;
         return Obs{got == want ? got : "REENTRANCY-MISMATCH got '" + got + "' expected '" + want + "'"}; }});
+    A.push_back({"p1 parse left by an exception thrown from a functor 'a;b=c;d;'", []() { std::string log; t_log = &log; seam_stream es; std::string s("a;b=c;d;"); std::string out;
+        t_throw = true; try { auto r = H1.p->parse(parse_options{}, seam_buffer(s), es); out = show(r); } catch (const FunctorError&) { out = "threw"; } t_throw = false; t_log = nullptr; return Obs{out + "|" + log + "|" + es.text}; }});
+    A.push_back({"p1 string_view parse left by an exception 'a;b=c;'", []() { std::string log; t_log = &log; std::ostringstream es; std::string s("a;b=c;"); std::string out;
+        t_throw = true; try { auto r = H1.p->parse(string_view_buffer(std::string_view(s)), es); out = show(r); } catch (const FunctorError&) { out = "threw"; } t_throw = false; t_log = nullptr; return Obs{out + "|" + log + "|" + es.str()}; }});
     A.push_back({"p1 write_diag_str", []() { std::ostringstream o; H1.p->write_diag_str(o); return Obs{std::to_string(o.str().size()) + ":" + std::to_string(std::hash<std::string>{}(o.str()))}; }});
     auto p2 = [](const char* in) { return [in]() { std::string log; t_log = &log; seam_stream es; std::string s(in); auto r = H2.p->parse(parse_options{}, seam_buffer(s), es); t_log = nullptr; return Obs{show(r) + "|" + log + "|" + es.text}; }; };
     A.push_back({"p2 accept '12,3,40'", p2("12,3,40")});
@@ -285,7 +291,8 @@ static int run_sched(int bound, int shard, int nshards, int nthreads) {
     auto idx = [&](const char* prefix) { for (size_t k = 0; k < A.size(); ++k) if (std::string(A[k].name).rfind(prefix, 0) == 0) return k; std::printf("{\"harness_error\": \"no call %s\"}\n", prefix); std::exit(2); };
     size_t acc = idx("p1 accept"), rec = idx("p1 recover"), lexe = idx("p1 lexical"), ctx = idx("p1 context_parse"), frec = idx("p1 failing recovery"), verb = idx("p1 verbose"), diag = idx("p1 write_diag_str"), q1 = idx("p2 accept"), q2 = idx("p2 syntax"), q3 = idx("p2 lexical"), sv1 = idx("p1 string_view default"), sv2 = idx("p1 string_view skip_newline");
     size_t reent = idx("p1 re-entrant");
-    std::vector<std::vector<size_t>> pairs = {{reent, rec}, {acc, rec}, {rec, acc}, {rec, lexe}, {ctx, acc}, {acc, acc}, {frec, rec}, {verb, ctx}, {q1, q2}, {q2, q3}, {diag, rec}, {sv1, sv2}, {sv2, rec}};
+    size_t thr = idx("p1 parse left by an exception");
+    std::vector<std::vector<size_t>> pairs = {{thr, acc}, {reent, rec}, {acc, rec}, {rec, acc}, {rec, lexe}, {ctx, acc}, {acc, acc}, {frec, rec}, {verb, ctx}, {q1, q2}, {q2, q3}, {diag, rec}, {sv1, sv2}, {sv2, rec}};
     if (nthreads == 3) pairs = {{acc, rec, lexe}, {ctx, acc, verb}, {sv1, sv2, rec}, {q1, q2, q3}, {rec, rec, frec}, {diag, ctx, acc}};
     long execs = 0, failures = 0, points = 0; std::string first; size_t maxpoints = 0; size_t npairs = 0;
     for (size_t pi = 0; pi < pairs.size(); ++pi) {
